@@ -7,6 +7,7 @@ reaches the simulated machine while an operation on a view runs is recorded
 and must lie inside that view's range (confinement is judged on the wire, not
 on what the view believes)."""
 import struct
+import importlib
 import warnings
 
 from ..core import check, Violation
@@ -171,7 +172,70 @@ def run(case, ctx):
     mc, mcm = r.mc, r.mcm
     length = case["length"]
     rng = random.Random(case["seed"])
-    if case["base"] is None:
+    if case["base"] is None and length and case["seed"] % 5 == 1:
+        # the view is one of several handed out by the helper that allocates
+        # a block per placed vertex
+        mu = importlib.import_module("rig.machine_control.utils")
+        rp = importlib.import_module("rig.place_and_route")
+        own = case["seed"] % 2 == 0
+        sd, co = ("sdram-bytes", ("cores",)) if own else (rp.SDRAM, rp.Cores)
+        kw = dict(sdram_resource=sd, cores_resource=co) if own else {}
+        sizes = {"v0": length, ("v", 1): 4 * rng.randint(1, 20), "v2": None,
+                 3: rng.randint(1, 50)}
+        cores = dict(zip(sizes, rng.sample(range(1, 17), 4)))
+        allocations = {}
+        for v, n in sizes.items():
+            allocations[v] = {co: slice(cores[v], cores[v] + rng.randint(1, 2))}
+            if n is not None:
+                at = rng.randrange(0, 1000, 4)
+                allocations[v][sd] = slice(at, at + n)
+            if own and rng.random() < .5:
+                allocations[v][rp.SDRAM] = slice(0, 7)      # a decoy
+        placements = {v: (0, 0) for v in sizes}
+        as_tag = case["seed"] % 3 != 0
+        cleared_v = case["seed"] % 7 < 3
+        junk = bytes(1 + rng.getrandbits(8) % 255 for _ in range(length + 400))
+        heap0 = chip.heap
+        chip.wr(heap0, junk, log=False)
+        if not as_tag:
+            kw["core_as_tag"] = False
+        if cleared_v:
+            kw["clear"] = True
+        with mc(app_id=30):
+            got = mu.sdram_alloc_for_vertices(mc, placements, allocations,
+                                              **kw)
+        ctx.hit("views_for_vertices")
+        want_v = {v for v, n in sizes.items() if n is not None}
+        check(set(got) == want_v, "vertex-views",
+              "views for %r, vertices with memory %r" %
+              (sorted(got, key=repr), sorted(want_v, key=repr)))
+        spans = []
+        for v in want_v:
+            io = got[v]
+            rec = chip.allocs.get(io.address)
+            check(isinstance(io, mcm.MemoryIO) and rec is not None and
+                  rec[0] == sizes[v] and len(io) == sizes[v] and
+                  rec[1] == (cores[v] if as_tag else 0) and rec[2] == 30,
+                  "vertex-view-block",
+                  "vertex %r (size %d, first core %d): view at %#x of length "
+                  "%d over the machine's block %r (size, tag, app)" %
+                  (v, sizes[v], cores[v], io.address, len(io), rec))
+            spans.append((io.address, io.address + sizes[v]))
+            if cleared_v:
+                check(chip.rd(io.address, sizes[v]) == bytes(sizes[v]),
+                      "allocation-not-cleared", "vertex %r" % (v,))
+            else:
+                # "If False (the default) the memory will be left as-is"
+                o = io.address - heap0
+                check(chip.rd(io.address, sizes[v]) == junk[o:o + sizes[v]],
+                      "allocation-contents-changed",
+                      "vertex %r: the block was not left as it was" % (v,))
+        spans.sort()
+        check(all(a[1] <= b[0] for a, b in zip(spans, spans[1:])),
+              "vertex-views-overlap", repr(spans))
+        root_obj = got["v0"]
+        base = root_obj.address
+    elif case["base"] is None:
         cleared = length and case["seed"] % 3 == 0
         if cleared:
             # the heap holds leftovers; the caller asks for a zeroed block
